@@ -26,6 +26,7 @@ import (
 	"io"
 	"log/slog"
 	"os"
+	"path/filepath"
 	"sort"
 	"strings"
 	"testing"
@@ -70,10 +71,11 @@ var allOps = []struct {
 	{"PutPath", 12, 200}, {"ForWriteObject", 14, 250}, {"LimitCopy", 14, 250}, {"Untar", 14, 250},
 	{"Unzip", 14, 250}, {"PutFileSet", 14, 250}, {"ModuleStore", 32, 600}, {"PutBufYAML", 12, 150},
 	{"PutBufLock", 12, 150}, {"ResponseWriter", 14, 250}, {"Tar", 16, 250}, {"Zip", 16, 250},
+	{"ResponseWriterMulti", 24, 400},
 }
 
 type faultSpec struct {
-	Mode    string `json:"mode"` // fail | crash | writer | budget | limit
+	Mode    string `json:"mode"` // fail | crash | writer | budget | limit | blocked
 	K       int    `json:"k"`
 	Variant string `json:"variant,omitempty"`
 	Short   bool   `json:"short,omitempty"`
@@ -94,7 +96,18 @@ type opCase struct {
 	TarLayout  bool               `json:"tar_layout"`
 	Prefix     string             `json:"prefix"`
 	Module     *faultx.ModuleSpec `json:"module,omitempty"`
-	Fault      *faultSpec         `json:"fault,omitempty"`
+	// ResponseWriterMulti: the kinds (dir | zip | jar) of the output locations, in the order the responses
+	// are added, and the location the faults are injected into
+	Outs   []string   `json:"outs,omitempty"`
+	Target int        `json:"target,omitempty"`
+	Fault  *faultSpec `json:"fault,omitempty"`
+}
+
+func (c opCase) outName(i int) string {
+	if c.Outs[i] == "dir" {
+		return fmt.Sprintf("out%d", i)
+	}
+	return fmt.Sprintf("out%d.%s", i, c.Outs[i])
 }
 
 func (c opCase) canon() string {
@@ -127,6 +140,18 @@ func genCase(t *rapid.T, op string) opCase {
 		c.Pre = 0
 	case "ResponseWriter":
 		c.DstDisk = true
+	case "ResponseWriterMulti":
+		c.DstDisk = true
+		c.Pre = 0
+		n := rapid.IntRange(2, 4).Draw(t, "outs")
+		for i := 0; i < n; i++ {
+			kind := "dir"
+			if rapid.IntRange(0, 3).Draw(t, "archive") == 0 {
+				kind = rapid.SampledFrom([]string{"zip", "jar"}).Draw(t, "kind")
+			}
+			c.Outs = append(c.Outs, kind)
+		}
+		c.Target = rapid.IntRange(0, n-1).Draw(t, "target")
 	}
 	return c
 }
@@ -383,6 +408,28 @@ func prepare(c opCase) (*prep, *harnessErr) {
 			}
 			return rw.Close()
 		}
+	case "ResponseWriterMulti":
+		// one response per output location (objects dealt round-robin; a location may get none)
+		resps := make([]*pluginpb.CodeGeneratorResponse, len(c.Outs))
+		for i := range resps {
+			resps[i] = &pluginpb.CodeGeneratorResponse{}
+		}
+		for i, path := range faultx.SortedKeys(p.srcMap) {
+			resps[i%len(resps)].File = append(resps[i%len(resps)].File, &pluginpb.CodeGeneratorResponse_File{
+				Name:    proto.String(path),
+				Content: proto.String(string(p.srcMap[path])),
+			})
+		}
+		p.expected = nil // learned from the clean run (zip bytes are the writer's business)
+		p.runDir = func(dir string, wrap func(storage.ReadWriteBucket) storage.ReadWriteBucket) error {
+			rw := bufprotopluginos.NewResponseWriter(discardLogger, wrapProvider{wrap: wrap}, bufprotopluginos.ResponseWriterWithCreateOutDirIfNotExists())
+			for i := range c.Outs {
+				if err := rw.AddResponse(ctx, resps[i], filepath.Join(dir, c.outName(i))); err != nil {
+					return err
+				}
+			}
+			return rw.Close()
+		}
 	case "Tar":
 		p.runWriter = func(w io.Writer) error { return storagearchive.Tar(ctx, p.src, w) }
 	case "Zip":
@@ -417,6 +464,11 @@ type outcome struct {
 }
 
 func runOnce(c opCase, p *prep, plan faultx.Plan) (outcome, *harnessErr) {
+	return runOnceX(c, p, plan, false)
+}
+
+// runOnceX: block additionally puts a directory where an archive output has to be created.
+func runOnceX(c opCase, p *prep, plan faultx.Plan, block bool) (outcome, *harnessErr) {
 	var o outcome
 	ctx := p.ctx
 	var under storage.ReadWriteBucket
@@ -456,9 +508,34 @@ func runOnce(c opCase, p *prep, plan faultx.Plan) (outcome, *harnessErr) {
 	thread.SetParallelism(c.Par)
 	defer thread.SetParallelism(1)
 	var fb *faultx.Bucket
+	// the n-th bucket handed out is the n-th directory location flushed; only the target one is disturbed
+	dirTarget, blocked := 0, ""
+	if c.Op == "ResponseWriterMulti" {
+		for i := 0; i < c.Target; i++ {
+			if c.Outs[i] == "dir" {
+				dirTarget++
+			}
+		}
+		if c.Outs[c.Target] != "dir" {
+			dirTarget = -1
+			if block {
+				// something that is not a file sits where the archive has to be created
+				blocked = filepath.Join(dir, c.outName(c.Target))
+				if err := os.MkdirAll(filepath.Join(blocked, "in-the-way"), 0o755); err != nil {
+					return o, herr("mkdir: %v", err)
+				}
+			}
+		}
+	}
+	handed := 0
 	wrap := func(b storage.ReadWriteBucket) storage.ReadWriteBucket {
-		fb = faultx.New(b, plan)
-		return fb
+		x := faultx.New(b, faultx.Count())
+		if handed == dirTarget {
+			x = faultx.New(b, plan)
+			fb = x
+		}
+		handed++
+		return x
 	}
 	if p.runDir != nil {
 		o.err = p.runDir(dir, wrap)
@@ -471,6 +548,12 @@ func runOnce(c opCase, p *prep, plan faultx.Plan) (outcome, *harnessErr) {
 	if fb != nil {
 		o.events = fb.Log()
 		o.disturbed = fb.Disturbed()
+	}
+	if blocked != "" {
+		o.disturbed = true
+		if err := os.RemoveAll(filepath.Join(blocked, "in-the-way")); err != nil {
+			return o, herr("cleanup: %v", err)
+		}
 	}
 	var err error
 	if c.DstDisk {
@@ -566,8 +649,34 @@ func sweepBucketOp(c opCase, p *prep, only *faultSpec, st *sweepStats, fail func
 	if p.hasCount && clean.count != p.wantCount {
 		return herr("clean run of %s returned count %d want %d", c.Op, clean.count, p.wantCount)
 	}
+	if c.Op == "ResponseWriterMulti" && c.Outs[c.Target] != "dir" {
+		// the archive is written with os.Create, not through a bucket: the only fault is a path that cannot be created
+		o, he := runOnceX(c, p, faultx.Count(), true)
+		if he != nil {
+			return he
+		}
+		st.runs++
+		st.fired++
+		st.positions++
+		st.interior++
+		if o.err != nil {
+			st.errReturned++
+		}
+		evid.R().Eval()
+		evid.R().Class("fault:archive-path-blocked")
+		if key, msg := judge(c, p, o, fmt.Sprintf("a directory in the way of output %d (%s) of %v", c.Target, c.outName(c.Target), c.Outs)); key != "" {
+			cc := c
+			cc.Fault = &faultSpec{Mode: "blocked"}
+			fail(key, msg, cc)
+		}
+		return nil
+	}
 	E := len(clean.events)
 	if E == 0 {
+		if c.Op == "ResponseWriterMulti" {
+			evid.R().Class("multi:target-location-empty")
+			return nil
+		}
 		return herr("clean run of %s has no events", c.Op)
 	}
 	try := func(f faultSpec) (bool, *harnessErr) {
